@@ -30,7 +30,10 @@ pub fn step_error(e: &StepError) -> String {
             let mut v: Vec<String> = a
                 .possible_matches
                 .iter()
-                .map(|(re, _)| re.as_str().to_owned())
+                .map(|(re, loc)| match loc {
+                    Some(l) => format!("{}@{}", re.as_str(), l.line),
+                    None => re.as_str().to_owned(),
+                })
                 .collect();
             v.sort();
             format!("Ambiguous[{}]", v.join(" | "))
